@@ -63,6 +63,9 @@ type ExportingProcess struct {
 	wg              sync.WaitGroup
 	isClosed        atomic.Bool
 	stopCh          chan struct{}
+	// sendMutex makes numbering a message and writing it one step: the application and the
+	// template refresh goroutine (UDP) both send messages.
+	sendMutex sync.Mutex
 }
 
 type ExporterTLSClientConfig struct {
@@ -347,6 +350,10 @@ func (ep *ExportingProcess) NewTemplateID() uint16 {
 // createAndSendIPFIXMsg takes in a set as input, creates the IPFIX message, and sends it out.
 // TODO: This method will change when we support sending multiple sets.
 func (ep *ExportingProcess) createAndSendIPFIXMsg(set entities.Set) (int, error) {
+	// A message must not be overtaken on its way to the connection by one which was numbered
+	// after it: the sequence numbers would go backwards for the collector.
+	ep.sendMutex.Lock()
+	defer ep.sendMutex.Unlock()
 	// The sequence number is read here by the template refresh goroutine (UDP) while the
 	// application updates it when sending data sets: access it atomically.
 	var seqNumber uint32
